@@ -870,6 +870,22 @@ class NN:
                 cur = strip(cur[2][1])
             elif is_call(cur, "builtins.list") and len(cur[2]) == 1:
                 cur = strip(cur[2][0])
+            elif head(cur) == "mut" and cur[1] == "sort" and not cur[3]:
+                # lst.sort(key=..) : the in-place form of sorted (both are stable)
+                kw = dict(cur[4])
+                info["sortkey"] = kw.get("key")
+                info["reverse"] = kw.get("reverse", FALSE) != FALSE
+                info["order"].append("sort")
+                cur = strip(cur[2])
+            elif head(cur) == "comp" and cur[1] in ("list", "gen") and len(cur[3]) == 1 and strip(cur[2]) == cur[3][0][0] and cur[3][0][1]:
+                # [t for t in X if cond(t)] : a filter stage
+                ce = cur[3][0][0]
+                lamid = ("#filter",) + tuple(cur[4][1:]) if isinstance(cur[4], tuple) else ("#filter", 0)
+                conds = cur[3][0][1]
+                body = conds[0] if len(conds) == 1 else ("and", tuple(conds))
+                info["filters"].append(("lam", lamid, (("t", None, "pos"),), subst(body, {ce: ("lparam", lamid, "t")})))
+                info["order"].append("filter")
+                cur = strip(ce[3])
             elif head(cur) == "comp" and cur[1] in ("list", "gen") and head(strip(cur[2])) == "tuple" and len(strip(cur[2])[1]) == 3:
                 info["comp"] = cur
                 info["order"].append("comp")
